@@ -48,7 +48,7 @@ func (c *Ctx) ruleDynOneof(rule string) {
 			n++
 			sp, _ := g.posOf(as)
 			reach, _ := g.Forward(g.Entry(), Search{
-				Target: func(x ast.Node) bool { p, ok := g.where[x]; return ok && p == sp },
+				TargetPos: &sp,
 				Barrier: func(x ast.Node) bool {
 					return containsCall(info, x, "types/dynamicpb.(*Message).clearOtherOneofFields") != nil
 				},
